@@ -244,7 +244,7 @@ PROPERTIES = {
             "temporaries marked maybe_uninitialized are exempt from the analysis by design (the user opted out)",
             "NOT decided: read/write order recomputed on the emitted process text; cleanup_bool_cast (cosmetic pass) is under a bounded structural check only",
         ],
-        "extra": ["contracts.c07_visit.visit_completeness", "contracts.c08_select.select_default_sweep"],
+        "extra": ["contracts.c07_visit.visit_completeness", "contracts.c08_select.select_default_sweep", "contracts.c08_select.concurrent_control_sweep"],
         "canaries": [
             {"name": "case-intersection", "contract": "cohdl._compiler.frontend._generate_ir:ConvertInstance.detect_uninitialized_temporaries", "case": "any-context", "file": "cohdl/_compiler/frontend/_generate_ir.py",
              "old": "                            always_defined &= branch_temporaries", "new": "                            always_defined.difference_update(branch_temporaries)"},
@@ -262,7 +262,7 @@ PROPERTIES = {
             "expression / block writers are separate units: in statement-level contracts they only produce opaque text",
             "NOT decided: that a standards-conforming tool accepts the whole text; names of enumeration literals; completeness of the inferred sensitivity list (closure inside VhdlAssembler.apply); output ports never read (AliasScope) -- no contract yet",
         ],
-        "extra": ["contracts.c06_extra.reserved_covers_emitted", "contracts.c06_extra.balanced_templates", "contracts.c06_extra.identifier_sweep"],
+        "extra": ["contracts.c06_extra.reserved_covers_emitted", "contracts.c06_extra.balanced_templates", "contracts.c06_extra.identifier_sweep", "contracts.c08_select.concurrent_control_sweep"],
         "canaries": [
             {"name": "halving-loop-case", "contract": "cohdl._compiler.backend.vhdl._vhdl_repr:VhdlScope.complete_setup", "case": "signal-named-top", "file": "cohdl/_compiler/backend/vhdl/_vhdl_repr.py",
              "old": "                    if name.lower() not in used_names:\n                        cnt -= step", "new": "                    if name not in used_names:\n                        cnt -= step"},
